@@ -69,3 +69,13 @@ CLAIMED['C17'] = dict(
          "instantiations and by native translation validation. Signed-overflow obligations inside StaticChunkMapper (intentional wrap-around of narrow intermediates) are "
          "reported as a separate non-gating class with two's-complement semantics. Precondition: items + chunks - 1 representable; range size <= INT64_MAX.",
     technique="function contracts + lemma functions over contracts (modular), VC generation over Int, SMT (z3-new/cvc5); CBMC DFCC on narrow instantiations")
+
+CLAIMED['C44'] = dict(
+    category='proof',
+    text="Function contracts on the extracted bodies of nextPow2, log2const (32/64), countTrailingZeros, countSetBits, alignToCacheLine, alignedMalloc and alignedFree "
+         "are discharged bit-precisely by CBMC for every input in the documented domains (all 2^64 / 2^32 values; constant-bounded loops unwound completely). "
+         "log2's x86 bsr instruction is replaced by an axiom stub, so for log2 only the wrapper is proved; the compiled function is compared natively against a reference "
+         "for 2^26 (quick) or all 2^32 (thorough) 32-bit inputs and 2^24 64-bit inputs - labelled bounded and not counted.",
+    note="Trusted: CBMC's model of __builtin_ctzll/__builtin_popcountll, the bsr axiom, malloc axiom (fresh, 16-aligned, no failure, no address wrap). alignedMalloc/alignedFree are "
+         "verified in integer address space with a ghost block and ghost recovery word (pointer casts rewritten by rule R19).",
+    technique="CBMC DFCC function contracts (cadical), complete unwinding of constant-bounded loops, axiom stub for inline asm, native exhaustive stand-in")
